@@ -526,13 +526,18 @@ func fixup(c codec, e *entry, ver int) int {
 	return ver
 }
 
-func versionsOf(e *entry) []int {
+// versions exercised: 0..max; types with their own Version field have no declared max: 0..5 plus 6 and 32767; the decoder
+// (C16) is also fed the unsupported version -1 (it is two input bytes away).
+func versionsOf(e *entry, dec bool) []int {
 	var vs []int
 	for v := 0; v <= e.maxV; v++ {
 		vs = append(vs, v)
 	}
 	if e.verF {
-		vs = append(vs, -1, 6, 32767)
+		vs = append(vs, 6, 32767)
+		if dec {
+			vs = append(vs, -1)
+		}
 	}
 	return vs
 }
@@ -554,7 +559,7 @@ func genEnc(a hx.Args) {
 	per := a.N(8, 60)
 	for i := range registry {
 		e := &registry[i]
-		for _, ver := range versionsOf(e) {
+		for _, ver := range versionsOf(e, false) {
 			for k := 0; k < per; k++ {
 				kind := k
 				if k >= 7 {
@@ -625,7 +630,7 @@ func genDec(a hx.Args) {
 	}
 	for i := range registry {
 		e := &registry[i]
-		for _, ver := range versionsOf(e) {
+		for _, ver := range versionsOf(e, true) {
 			if ver > e.maxV && !e.verF {
 				continue
 			}
@@ -662,7 +667,7 @@ func genDec(a hx.Args) {
 	// small-scope enumeration: every 1-byte input for every type/version (thorough: every 2-byte input for a sample)
 	for i := range registry {
 		e := &registry[i]
-		for _, ver := range versionsOf(e) {
+		for _, ver := range versionsOf(e, true) {
 			if ver > e.maxV && !e.verF {
 				continue
 			}
